@@ -439,9 +439,10 @@ func (e *Exec) rangeInit(v Value, t types.Type) Value {
 			for i := range rem {
 				rem[i] = i
 			}
+			fixed, _ := e.path.extra["fixedMapOrder"].(bool)
 			for len(rem) > 0 {
 				j := 0
-				if len(rem) > 1 {
+				if len(rem) > 1 && !fixed {
 					j = e.forkN(len(rem))
 				}
 				it.order = append(it.order, rem[j])
